@@ -585,7 +585,8 @@ func (r *Run) observe() {
 				for _, tx := range b.Txs {
 					for _, ev := range tx.Events {
 						if e, err := shutterevents.MakeEvent(ev, b.Height); err == nil {
-							if es, ok := e.(*shutterevents.EonStarted); ok && es.Eon > r.eon && r.h1 == 0 {
+							// (keyper set 2's eon - not a restart of the first eon after a failed DKG)
+							if es, ok := e.(*shutterevents.EonStarted); ok && es.Eon > r.eon && es.KeyperConfigIndex == 2 && r.h1 == 0 {
 								r.h1, r.eon2 = b.Height, es.Eon
 							}
 						}
@@ -935,6 +936,10 @@ func (r *Run) execute() error {
 	for {
 		H := r.chain.OpenHeight()
 		end := r.h0 + 3*r.sc.L
+		for _, st := range r.sc.Stalls {
+			// a keyper that sleeps beyond the end of the DKG still gets the tail to catch up
+			end = max(end, r.h0+int64(st.From+st.Len))
+		}
 		if ov := r.sc.Overlap; ov != nil {
 			if r.h1 != 0 {
 				end = max(end, r.h1+3*r.sc.L)
@@ -1236,6 +1241,32 @@ func (r *Run) checkAgreement(fail failFn, derived bool) (agreeStats, *refRecord)
 	}
 	if len(r.keyperPanics) > 0 {
 		fail("keyper-panic", "an honest keyper's main loop panicked: %v\n%s", r.keyperPanics, hist())
+	}
+	// shuttermint has no reason to refuse a DKG message of an honest keyper for a started eon
+	// (it may answer "seen" to a repetition): a refusal keeps the message at the head of the
+	// keyper's outbox for ever and takes the keyper out of this and every later key generation
+	for _, tx := range r.chain.AllTxs {
+		p := r.posOf(tx.Signer)
+		if _, isByz := r.sc.Byz[p]; p < 0 || isByz || tx.Msg == nil || tx.Code != 1 {
+			continue
+		}
+		var eon uint64
+		switch m := tx.Msg; {
+		case m.GetPolyCommitment() != nil:
+			eon = m.GetPolyCommitment().Eon
+		case m.GetPolyEval() != nil:
+			eon = m.GetPolyEval().Eon
+		case m.GetAccusation() != nil:
+			eon = m.GetAccusation().Eon
+		case m.GetApology() != nil:
+			eon = m.GetApology().Eon
+		default:
+			continue
+		}
+		if eon == r.eon {
+			fail("honest-dkg-message-refused", "shuttermint answered the %s of honest k%d for eon %d at height %d (eon started at %d) with an error: %s\n%s", msgKind(tx), p, eon, tx.Height, r.h0, tx.Log, hist())
+			break
+		}
 	}
 	ref := r.reference()
 	st.Accusations, st.Apologies = len(ref.Accusations), len(ref.Apologies)
